@@ -132,6 +132,13 @@ Theorem C24_line_ok_exact : forall soft,
 Proof. intro soft. split; [exact (line_ok_exact_upto6 soft) | exact (line_ok_exact_pairs_upto3 soft)]. Qed.
 Print Assumptions C24_line_ok_exact.
 
+(* a refused statement changes nothing: OPEN ... AS #1 while #1 is in use is File already open and leaves the
+   whole state (disk contents, open file, positions) as it was *)
+Theorem C24_refused_open_unchanged : forall soft o s, hnd s <> HClosed ->
+  o = OpOpenO \/ o = OpOpenA \/ o = OpOpenI -> step soft o s = ([1; tf_err_FILE_ALREADY_OPEN], s).
+Proof. exact refused_open_unchanged. Qed.
+Print Assumptions C24_refused_open_unchanged.
+
 (* the model never runs out of fuel: INPUT# and LINE INPUT# return a value or Input past end *)
 Theorem C24_total : forall str r,
   ((exists w c r', input_entry str r = Ok (w, c, r')) \/ input_entry str r = Err tf_err_INPUT_PAST_END) /\
